@@ -170,6 +170,50 @@ def run(ctx):
                                  observed=out[0] if out[0] != "ok" else "a different tree",
                                  cls="chain", sig=["chain", op, right])
             ctx.cls("chain:%s:%d" % (op, n_operands))
+    # ---- very long chains (>= the interpreter's recursion limit), checked iteratively --------
+    # nothing here recurses, and the recursion limit is left alone: a tree this deep must
+    # still be the left-deep one (min rendering) / the one the parentheses spell (full)
+    import sys
+    from odata_query import ast as A
+    limit = sys.getrecursionlimit()
+    for op in ("and", "or", "add", "mul", "eq"):
+        for n_operands in ctx.pick([limit - 1, limit, limit + 200], [limit - 1, limit, limit + 1, limit + 200, 3 * limit]):
+            j += 1
+            if not ctx.mine(j):
+                continue
+            names = ["w%d" % i for i in range(n_operands)]
+            for mode in ("min", "full"):
+                if mode == "min":
+                    text = (" %s " % op).join(names)
+                else:
+                    text = "(" * (n_operands - 1) + names[0] + "".join(" %s %s)" % (op, nm) for nm in names[1:])
+                ctx.count("evaluations")
+                ctx.seen(["very-long", op, n_operands, mode])
+                o = drive.parse_ast(text)
+                bad = None
+                if o[0] != "ok":
+                    bad = "rejected: %s" % (o[1],)
+                else:
+                    node, k = o[1], n_operands - 1
+                    while k > 0 and bad is None:
+                        cls_ok = isinstance(node, (A.BoolOp, A.BinOp, A.Compare))
+                        if not cls_ok:
+                            bad = "spine ends after %d of %d operators" % (n_operands - 1 - k, n_operands - 1)
+                            break
+                        right = node.right
+                        if not (isinstance(right, A.Identifier) and right.name == names[k]):
+                            bad = "operand %d is not the right operand of the %d-th operator from the top" % (k, n_operands - k)
+                            break
+                        node, k = node.left, k - 1
+                    if bad is None and not (isinstance(node, A.Identifier) and node.name == names[0]):
+                        bad = "left-most operand is not w0"
+                if bad:
+                    ctx.fail({"operator": op, "operands": n_operands, "mode": mode,
+                              "recursion_limit": limit, "text_head": text[:100]},
+                             "very long chain of one operator is not grouped to the left",
+                             expected="the left-deep tree", observed=bad, cls="very-long-chain",
+                             sig=["very-long", op, mode])
+            ctx.cls("very-long-chain:%s" % op)
     # ---- operator pairs around BIG operands -------------------------------------------
     # every 2-operator tree that contains `in`, its list replaced by long homogeneous
     # literal lists; and every 2-operator tree with one leaf replaced by a long literal.
